@@ -31,6 +31,9 @@ type Check struct {
 	// Isolate: run the batch in a child process, so that a death of the process (a panic in a goroutine the
 	// code under test started, a runaway loop) is observed and attributed to a run (see supervise.go).
 	Isolate bool
+	// RetrySafe (with Isolate): the check is not about crash-freedom; if the batch process dies, repeat the batch
+	// with core.Safe() true instead of attributing the death to a run.
+	RetrySafe bool
 	// MustProbe lists probes that have to be > 0 in a thorough batch; a probe
 	// stuck at zero is a harness failure (exit 2), never a violation.
 	MustProbe []string
